@@ -115,3 +115,12 @@ def run(cx):
             got = FR.arg_canon(fn, P, cn, b, 1)
             cx.add('K-HID', '%s@H1' % last(qual), got == hid, 'H1 is called with hid = %s (got %s)' % (hid, got), G.where(fn, b))
     cx.floor('K-HID', 'sites', n, 4, 'H1 call sites outside the extractors')
+
+
+_run0 = run
+
+
+def run(cx):
+    from .. import rules_s as S
+    _run0(cx)
+    S.s_siblings(cx, 'S-SIBLING', only=('mod-add', 'modn-sub', 'limb-add', 'limb-sub', 'limb-cmp', 'limb-mul'))
